@@ -1,5 +1,7 @@
 import Percival.Proofs.EventsC05Loop
 import Percival.Proofs.TimerQueue
+import Percival.Proofs.EventsStep
+import Percival.Proofs.EventsC04Run
 /-!
 # C05 — event loop: dispatch order, progress and status propagation
 
@@ -155,5 +157,48 @@ def tqContract : TQContract :=
 /-- `run_admissible_C05` with no hypothesis left about the timer queue -/
 theorem run_admissible_C05_closed (fuel : Nat) (prog : List Top) : C05.admissible (run fuel prog) = true :=
   run_admissible_C05 tqContract fuel prog
+
+/-! ## the functions the executables run (see the section of the same name in `Properties/C04.lean`) -/
+
+open Percival.Proofs.EventsStep in
+/-- **Soundness of the executable C05 monitor for the model**: for every program, feeding the lines that
+`pmodel events` prints (`Model.Events.runOps`) to `pmodel eventsmon c05`, line by line, yields `ok` on every line. -/
+theorem model_lines_accepted_C05 (prog : List Top) : acceptsLines false true {} (runOps {} prog).2 = true := by
+  apply acceptsLines_of_flatten
+  · exact ⟨{}, rfl⟩
+  · have h := run_admissible_C05_closed runFuel prog
+    rw [run_eq_lines] at h
+    simp only [C05.admissible] at h
+    simp only [if_true]
+    show IsOk (C05.run {} (runOps {} prog).2.flatten)
+    cases hr : C05.run {} (runOps {} prog).2.flatten with
+    | ok m => exact ⟨m, rfl⟩
+    | error e => rw [hr] at h; cases h
+
+example : acceptsLines false true {} [[.runBegin, .ret 5]] = false := by decide
+
+open Percival.Proofs.EventsStep in
+/-- … and with both monitors at once (`pmodel eventsmon` without argument, as the C04/C05 checks of other
+properties' components run it) -/
+theorem model_lines_accepted_both (prog : List Top) : acceptsLines true true {} (runOps {} prog).2 = true := by
+  apply acceptsLines_of_flatten
+  · have h := Percival.Proofs.EventsC04.run_admissible tqContract runFuel prog
+    rw [run_eq_lines] at h
+    simp only [C04.admissible] at h
+    simp only [if_true]
+    show IsOk (C04.run {} (runOps {} prog).2.flatten)
+    cases hr : C04.run {} (runOps {} prog).2.flatten with
+    | ok m => exact ⟨m, rfl⟩
+    | error e => rw [hr] at h; cases h
+  · have h := run_admissible_C05_closed runFuel prog
+    rw [run_eq_lines] at h
+    simp only [C05.admissible] at h
+    simp only [if_true]
+    show IsOk (C05.run {} (runOps {} prog).2.flatten)
+    cases hr : C05.run {} (runOps {} prog).2.flatten with
+    | ok m => exact ⟨m, rfl⟩
+    | error e => rw [hr] at h; cases h
+
+example : acceptsLines true true {} [[.op (.regImm 1 0) .ok], [.runBegin, .cb 1, .cbEnd 0, .ret 0]] = true := by decide
 
 end Percival.C05
